@@ -1,6 +1,231 @@
 (* Proofs/C02.v — emitter and literal lemmas of C02 (the parser theorem is in
    Proofs/C02Parse.v). *)
+From Coq Require Import String.
 From Coq Require Import ZArith List Bool Lia.
 From PV Require Import Lib.Py Model.Syntax Model.Emit Proofs.C02Parse.
 Import ListNotations.
 Open Scope Z_scope.
+
+(* ------------------------------------------------------------ induction *)
+Lemma expr_ind' (P : expr -> Prop) :
+  (forall k v, P (EOperand k v)) -> (forall e, P e -> P (EPre e)) -> (forall e, P e -> P (EPost e)) ->
+  (forall o l r, P l -> P r -> P (EBin o l r)) ->
+  (forall n args, Forall P args -> P (EFunc n args)) -> forall e, P e.
+Proof.
+  intros HO HP HQ HB HF. fix IH 1. intros [k v|e|e|o l r|n args].
+  - apply HO.
+  - apply HP, IH.
+  - apply HQ, IH.
+  - apply HB; apply IH.
+  - apply HF. induction args as [|a args IHl]; constructor; [apply IH|apply IHl].
+Qed.
+
+Lemma arith_func n args :
+  arith (EFunc n args) <->
+  (is_handler (func_key n) = false \/ func_key n = zs "pi"%string \/ func_key n = zs "true"%string
+   \/ func_key n = zs "false"%string) /\ Forall arith args.
+Proof.
+  cbn [arith]. split; intros [H1 H2]; split; auto.
+  - induction args as [|a l IH]; [constructor|]. destruct H2 as [Ha Hl]. constructor; auto.
+  - induction H2 as [|a l Ha Hl IH]; [exact I|]. split; auto.
+Qed.
+Lemma nnpl_func n args : no_neg_pow_left (EFunc n args) <-> Forall no_neg_pow_left args.
+Proof.
+  cbn [no_neg_pow_left]. split; intros H.
+  - induction args as [|a l IH]; [constructor|]. destruct H as [Ha Hl]. constructor; auto.
+  - induction H as [|a l Ha Hl IH]; [exact I|]. split; auto.
+Qed.
+
+(* ------------------------------------------------------------ the tables *)
+(* OperatorNode.op_map (generated) sends ^ to **, = to ==, <> to != *)
+Lemma op_map_ok :
+  map pyop_of [OEq; ONe; OLt; OLe; OGt; OGe; OCat; OAdd; OSub; OMul; ODiv; OPow; OIsect; OColon; OUnion]
+  = [Some PEq; Some PNe; Some PLt; Some PLe; Some PGt; Some PGe; Some PBitAnd; Some PAdd; Some PSub;
+     Some PMul; Some PDiv; Some PPow; None; None; None].
+Proof. vm_compute. reflexivity. Qed.
+
+Lemma pyop_of_pow o p : pyop_of o = Some p -> (o = OPow <-> p = PPow).
+Proof.
+  destruct o; vm_compute; intros H; try discriminate; injection H as <-;
+    split; intros E; try discriminate; reflexivity.
+Qed.
+
+Lemma handler_false f : is_handler f = false ->
+  str_eqb f (zs "pi"%string) = false /\ str_eqb f (zs "true"%string) = false /\ str_eqb f (zs "false"%string) = false /\
+  str_eqb f (zs "array"%string) = false /\ str_eqb f (zs "arrayrow"%string) = false /\
+  str_eqb f (zs "row"%string) = false /\ str_eqb f (zs "column"%string) = false.
+Proof.
+  unfold is_handler, handler_names. cbn [existsb]. intros H.
+  repeat (apply orb_false_elim in H; destruct H as [? H]). repeat split; assumption.
+Qed.
+
+(* ------------------------------------------------------------ emit *)
+Lemma pytop_wrap_true t : pytop (wrap true t) = 11. Proof. reflexivity. Qed.
+Lemma pywfb_wrap par t : pywfb t = true -> 1 <= pytop t -> pywfb (wrap par t) = true.
+Proof.
+  intros W T. destruct par; cbn [wrap pywfb]; auto. rewrite W. apply Z.leb_le in T. rewrite T.
+  reflexivity.
+Qed.
+Lemma pyabs_wrap par t : pyabs (wrap par t) = pyabs t. Proof. destruct par; reflexivity. Qed.
+Lemma pytop_wrap par t : 1 <= pytop t -> 1 <= pytop (wrap par t).
+Proof. destruct par; cbn [wrap pytop]; auto; lia. Qed.
+
+Lemma operand_ok k v : (k = KRange -> ref_modelled v = true) ->
+  pywfb (emit_operand k v) = true /\ pytop (emit_operand k v) = 11.
+Proof.
+  intros H. destruct k; cbn [emit_operand]; try (split; reflexivity).
+  unfold emit_ref. specialize (H eq_refl). unfold ref_modelled in H.
+  destruct (ref_parts v) as [[[sh r] rng]|]; [|discriminate]. split; reflexivity.
+Qed.
+
+Definition emit_good (e : expr) : Prop :=
+  (forall par, pywfb (emit par e) = true /\ pyabs (emit par e) = translate e /\ 1 <= pytop (emit par e))
+  /\ 8 <= pytop (emit true e)
+  /\ ((forall a, e <> EPre a) -> pytop (emit true e) = 11).
+
+Lemma emit_ok e : arith e -> no_neg_pow_left e -> emit_good e.
+Proof.
+  induction e as [k v|e IH|e IH|o l r IHl IHr|n args IH] using expr_ind'; intros A N.
+  - assert (O: pywfb (emit_operand k v) = true /\ pytop (emit_operand k v) = 11).
+    { apply operand_ok. intros ->. exact A. }
+    destruct O as [O1 O2]. unfold emit_good. cbn [emit translate]. rewrite O2.
+    split; [intros par; (split; [|split])|split]; auto; lia.
+  - cbn [arith no_neg_pow_left] in A, N. destruct (IH A N) as (G1 & G2 & G3).
+    destruct (G1 true) as (W & B & _).
+    assert (T: pywfb (PNeg (emit true e)) = true).
+    { cbn [pywfb]. rewrite W. apply Z.leb_le in G2. rewrite G2. reflexivity. }
+    unfold emit_good. cbn [emit translate].
+    split; [intros par; (split; [|split])|split]; cbn [pyabs pytop]; rewrite ?T, ?B; auto; try lia.
+    intros H. exfalso. apply (H e). reflexivity.
+  - cbn [arith no_neg_pow_left] in A, N. destruct (IH A N) as (G1 & G2 & G3).
+    destruct (G1 true) as (W & B & _).
+    assert (T: pywfb (PBin PDiv (emit true e) (PAtom (zs "100"%string))) = true).
+    { cbn [pywfb is_cmp_op pylevel pytop]. rewrite W. cbn [andb].
+      apply andb_true_intro; split; [apply Z.leb_le; lia|reflexivity]. }
+    unfold emit_good. cbn [emit translate].
+    split; [intros par; (split; [|split])|split].
+    + apply pywfb_wrap; auto. cbn; lia.
+    + rewrite pyabs_wrap. cbn [pyabs]. rewrite B. reflexivity.
+    + apply pytop_wrap. cbn; lia.
+    + cbn; lia.
+    + reflexivity.
+  - cbn [arith no_neg_pow_left] in A, N. destruct A as ([p Hp] & Al & Ar). destruct N as (Npl & Nl & Nr).
+    destruct (IHl Al Nl) as (L1 & L2 & L3). destruct (IHr Ar Nr) as (R1 & R2 & R3).
+    destruct (L1 true) as (Wl & Bl & _). destruct (R1 true) as (Wr & Br & _).
+    pose proof (pyop_of_pow o p Hp) as Pow.
+    assert (E: forall par, emit par (EBin o l r) = wrap par (PBin p (emit true l) (emit true r))).
+    { intros par. destruct o; cbn [emit]; rewrite ?Hp; try reflexivity; vm_compute in Hp; discriminate. }
+    assert (T: pywfb (PBin p (emit true l) (emit true r)) = true).
+    { cbn [pywfb]. rewrite Wl, Wr. cbn [andb].
+      destruct p; cbn [is_cmp_op pylevel];
+        try (apply andb_true_intro; split; [apply Z.leb_le|apply Z.ltb_lt]; lia);
+        try (apply andb_true_intro; split; apply Z.ltb_lt; lia).
+      assert (o = OPow) by (apply Pow; reflexivity). subst o.
+      assert (Tl: pytop (emit true l) = 11).
+      { apply L3. intros a ->. exact Npl. }
+      rewrite Tl. apply andb_true_intro; split; [reflexivity|apply Z.leb_le; lia]. }
+    unfold emit_good. cbn [translate]. rewrite Hp.
+    assert (Lv: 1 <= pylevel p) by (destruct p; cbn; lia).
+    split; [intros par; (split; [|split])|split]; rewrite ?E.
+    + apply pywfb_wrap; auto.
+    + rewrite pyabs_wrap. cbn [pyabs]. rewrite Bl, Br. reflexivity.
+    + apply pytop_wrap. exact Lv.
+    + cbn; lia.
+    + reflexivity.
+  - apply arith_func in A. destruct A as [Hh Aa]. apply nnpl_func in N.
+    assert (G: Forall emit_good args).
+    { rewrite Forall_forall in *. intros a Ha. apply IH; auto. }
+    assert (Wargs: forallb (fun a => pywfb a && (1 <=? pytop a)) (map (emit false) args) = true).
+    { clear -G. induction G as [|a l Ga Gl IHl]; cbn [map forallb]; auto.
+      destruct Ga as (G1 & _). destruct (G1 false) as (W & _ & T). rewrite W, IHl.
+      apply Z.leb_le in T. rewrite T. reflexivity. }
+    assert (Bargs: map pyabs (map (emit false) args) = map translate args).
+    { clear -G. induction G as [|a l Ga Gl IHl]; cbn [map]; auto.
+      destruct Ga as (G1 & _). destruct (G1 false) as (_ & B & _). rewrite B, IHl. reflexivity. }
+    unfold emit_good. cbn [emit translate].
+    destruct Hh as [Hh|[Hh|[Hh|Hh]]].
+    + destruct (handler_false _ Hh) as (H1 & H2 & H3 & H4 & H5 & H6 & H7).
+      rewrite H1, H2, H3, H4, H5, H6, H7, Hh. cbn [orb pywfb pyabs pytop].
+      rewrite Wargs, Bargs. split; [intros par; (split; [|split])|split]; auto; lia.
+    + rewrite Hh. split; [intros par; (split; [|split])|split]; cbn; auto; lia.
+    + rewrite Hh. split; [intros par; (split; [|split])|split]; cbn; auto; lia.
+    + rewrite Hh. split; [intros par; (split; [|split])|split]; cbn; auto; lia.
+Qed.
+
+Theorem emit_partial e : arith e -> no_neg_pow_left e ->
+  forall par, PyWF (emit par e) /\ pyabs (emit par e) = translate e.
+Proof.
+  intros A N par. destruct (emit_ok e A N) as (G & _). destruct (G par) as (W & B & _).
+  split; assumption.
+Qed.
+
+(* ------------------------------------------------------------ text literals *)
+Fixpoint esc (s : list Z) : list Z :=
+  match s with [] => [] | c :: s' => if c =? dq then bs :: dq :: esc s' else c :: esc s' end.
+
+Lemma repl_dbl s : repl_qq (dbl s) = esc s.
+Proof.
+  induction s as [|c s IH]; [reflexivity|]. cbn [dbl esc].
+  destruct (Z.eqb_spec c dq) as [->|NE].
+  - cbn [repl_qq]. rewrite !Z.eqb_refl. rewrite IH. reflexivity.
+  - cbn [repl_qq]. destruct (Z.eqb_spec c dq); [contradiction|]. rewrite IH. reflexivity.
+Qed.
+
+Definition plain_char (c : Z) : Prop := c <> bs /\ c <> 10 /\ c <> 13.
+
+Lemma unescape_esc s : Forall plain_char s -> py_unescape (esc s ++ [dq]) = Some s.
+Proof.
+  induction 1 as [|c s (H1 & H2 & H3) Hs IH]; [reflexivity|]. cbn [esc].
+  destruct (Z.eqb_spec c dq) as [->|NE].
+  - cbn [app py_unescape]. change (bs =? dq) with false. change ((bs =? 10) || (bs =? 13)) with false.
+    change (bs =? bs) with true. change (dq =? dq) with true. cbv iota. rewrite IH. reflexivity.
+  - cbn [app py_unescape].
+    destruct (Z.eqb_spec c dq); [contradiction|].
+    destruct (Z.eqb_spec c 10); [contradiction|]. destruct (Z.eqb_spec c 13); [contradiction|].
+    destruct (Z.eqb_spec c bs); [contradiction|]. cbn [orb]. rewrite IH. reflexivity.
+Qed.
+
+Lemma dbl_nonempty c s : exists d t, dbl (c :: s) = d :: t.
+Proof. cbn [dbl]. destruct (c =? dq); eauto. Qed.
+
+Theorem text_partial s : Forall plain_char s ->
+  py_string_literal (emit_text (excel_quote s)) = Some s.
+Proof.
+  intros H. destruct s as [|c s]; [reflexivity|].
+  destruct (dbl_nonempty c s) as (d & t & E).
+  assert (L: (2 <? zlen (excel_quote (c :: s))) = true).
+  { unfold excel_quote, zlen. rewrite E. cbn [length]. rewrite app_length. cbn [length].
+    apply Z.ltb_lt. lia. }
+  unfold emit_text. rewrite L.
+  assert (S: strip_quotes (excel_quote (c :: s)) = dbl (c :: s)).
+  { unfold excel_quote, strip_quotes. rewrite rev_app_distr. cbn [rev app].
+    change (dq =? dq) with true. cbn [andb]. apply rev_involutive. }
+  rewrite S, repl_dbl. cbn [py_string_literal]. change (dq =? dq) with true. cbv iota.
+  apply unescape_esc, H.
+Qed.
+
+(* ------------------------------------------------------------ number literals *)
+Lemma dec_value_zeros s : forallb (fun d => d =? 48) s = true -> dec_value s 0 = 0.
+Proof.
+  induction s as [|c s IH]; [reflexivity|]. cbn [forallb dec_value]. intros H.
+  apply andb_prop in H. destruct H as [H1 H2]. apply Z.eqb_eq in H1. subst c.
+  change (10 * 0 + (48 - 48)) with 0. apply IH, H2.
+Qed.
+
+Theorem number_partial s : s <> [] -> forallb is_digit s = true ->
+  (hd 0 s <> 48 \/ forallb (fun d => d =? 48) s = true) ->
+  py_decint s = Some (dec_value s 0).
+Proof.
+  intros NE D H. destruct s as [|c s]; [congruence|]. unfold py_decint. rewrite D.
+  cbn [hd] in H. destruct (Z.eqb_spec c 48) as [->|N0].
+  - destruct H as [H|H]; [congruence|]. rewrite H, (dec_value_zeros _ H). reflexivity.
+  - reflexivity.
+Qed.
+
+(* non-vacuity *)
+Example ex_code :
+  code (EBin OAdd (EOperand KNumber [49]) (EBin OMul (EOperand KNumber [50]) (EPost (EOperand KNumber [51]))))
+  = [49; 32; 43; 32; 40; 50; 32; 42; 32; 40; 51; 32; 47; 32; 49; 48; 48; 41; 41].   (* 1 + (2 * (3 / 100)) *)
+Proof. vm_compute. reflexivity. Qed.
+Example ex_text : py_string_literal (emit_text (excel_quote [97; 34; 98])) = Some [97; 34; 98].
+Proof. vm_compute. reflexivity. Qed.
